@@ -565,10 +565,13 @@ def check_C02(args):
         if args.replay:
             return
         kill_part("C02", V, random.Random(common.seed() * 31 + 2), quick_tier(), kst)
+        pipeline_part("C02", V, pst)
+
+    pst = {}
 
     def extra_cov(scenarios, traces):
-        return {"async_kill_directories": kst["dirs"], "async_kills": kst["kills"], "async_kill_acked_points": kst["acked"],
-                "async_kill_points_in_flight": kst["in_flight"]}
+        return dict({"async_kill_directories": kst["dirs"], "async_kills": kst["kills"], "async_kill_acked_points": kst["acked"],
+                     "async_kill_points_in_flight": kst["in_flight"]}, **pst)
 
     return store_check(args, "C02", mc_jobs, gen, ALL_INVS, CODE_FLAGS["ArrayDup"],
                        ["crash = loss of volatile state at a hook point (process-kill model; page cache survives)",
@@ -579,6 +582,31 @@ def check_C02(args):
 
 def quick_tier():
     return common.tier() == "quick"
+
+
+def pipeline_part(pid, V, st):
+    """spec/Pipeline.tla (the ingest pipeline at the level of stream offsets, any number
+    of sources): model checked, and the hook events of the repository's own
+    TestSingleDB / TestStorage validated against it (spec/TracePipe.tla)."""
+    import pipe_checks
+    from tla import run_tlc
+    work = common.scratch(pid + "-pipe")
+    try:
+        quick = quick_tier()
+        mod = ('---- MODULE MCPipe ----\nEXTENDS MCPipeline\nc_Keyed == {<<"t", "s0", 1>>, <<"t", "s0", 3>>, <<"t", "s1", 2>>%s}\n====\n'
+               % ("" if quick else ', <<"t", "s1", 4>>, <<"t", "s0", 4>>'))
+        cfg = ('SPECIFICATION MCSpec\nCONSTANTS\n  Tables = {"t"}\n  Sources = {"s0", "s1"}\n  StreamLen = %d\n  MaxCrashes = 2\n  Keyed <- c_Keyed\n'
+               'INVARIANTS DurableBehind Recoverable Visible\nCHECK_DEADLOCK FALSE\n' % (3 if quick else 4))
+        r = run_tlc(mod, "MCPipe", cfg, os.path.join(work, "mc"), workers=common.NPROC, timeout=600 if quick else 3000)
+        if r.violated:
+            V.notes.append("model: %s violated in spec/Pipeline.tla" % r.violated)
+        elif not r.ok:
+            raise InfraError("Pipeline model checking did not finish:\n" + r.out[-2000:])
+        st["pipeline_states"] = r.distinct
+        print("[%s] spec/Pipeline.tla: %d distinct states, DurableBehind / Recoverable / Visible hold" % (pid, r.distinct), flush=True)
+        pipe_checks.repo_tests_part(pid, V, ".", "TestSingleDB|TestStorage", work, st, "root")
+    finally:
+        shutil.rmtree(work, ignore_errors=True)
 
 
 def free_part(pid, V, rng, quick, st):
